@@ -29,6 +29,11 @@
  * Input: [0] lane (mod number of lanes of the target)  [1] flags  [2] cut (mod ncuts+1)
  *        [3] chunking seed  [4..] payload.
  *
+ * Lanes: per target 3-8 scenarios (version x suite x {full, resumed by id / ticket / TLS 1.3 PSK, 0-RTT, client auth,
+ * ClientHello with server_name + server SNI callback, stale RFC 5077 ticket after a server ticket-key rotation}).
+ * eccMulmod / pstm_exptmod are memoised (pure functions, see below) so that certificate lanes cost 5-20 ms instead
+ * of 30-300 ms per execution under ASan+UBSan+coverage.
+ *
  * Helper modes (environment): C08_GEN=<dir> writes the seed corpus for all targets from recorded
  * honest flights and exits; C08_SELFCHECK=1 checks that every lane is reproducible.
  * -DC08_STANDALONE: plain main() running files (valgrind memcheck on the prod build).
